@@ -517,10 +517,12 @@ theorem body_safe (cfg : Cfg) (hcfg : HashSafe cfg) (st : St) (pfx : Str) (hpfx 
       · exact h
       · split
         · exact h
-        · rename_i hlb
-          split
-          · exact safe_finishSet h rfl (safe_name (user_safe h hu) (noBreak_of_not_hasLineBreak (by simpa using hlb)))
+        · split
           · exact h
+          · rename_i hlb
+            split
+            · exact safe_finishSet h rfl (safe_name (user_safe h hu) (noBreak_of_not_hasLineBreak (by simpa using hlb)))
+            · exact h
   | identify name pw =>
     simp only [body]
     split
